@@ -7,15 +7,21 @@ H: spec/H_DocBoundaries.tla.  spec -> code: every list of the model is written w
    and libyaml dumpers, Safe variants) into a write-logging stream, the text is recorded after every document, and read back
    with parse / compose_all / load_all (both loaders); code -> spec: seeded lists of documents drawn from the repository's
    data files under the option product.  All observations are judged by TLC (spec/Trace_Docs.tla).
+Read side (spec/DocDeliver.tla): the text goes back to the loaders also as a file-like object (characters, UTF-8 bytes, UTF-16
+   bytes) whose read() follows every schedule of the model (1-unit, 2-unit, line, document, half-document, exact-size reads and
+   their alternations); every behaviour of the model is replayed at the model's read size, and the schedules are replayed at
+   the real read sizes on the texts of all lists (parse / scan / compose_all / load_all, both back-ends), long lists included.
 """
-import copy, glob, json, os, random
+import copy, glob, json, os, random, zlib
 import multiprocessing as mp
 from .. import tlc, trace
 from ..common import Verdict, use_repo, REPO, SEED
 from ..drivers import emitparse as ep
+from ..drivers import docdeliver as dd
 from .c05 import tla, calibrate
 
 _T0 = [None]
+PROCS = int(os.environ.get('VERIF_PROCS', '16'))       # worker processes (a shared, loaded machine: set it lower; no effect on results)
 
 
 def _t(label):
@@ -61,6 +67,19 @@ DCONF = {
 }
 DTIERS = {'quick': ['open', 'roots', 'dirs', 'canon', 'markers', 'handles'], 'thorough': ['open+', 'ends+', 'roots+', 'dirs+', 'dirs3+', 'four+', 'canon+', 'markers+', 'handles+', 'handles3+']}
 KEEP = r'outcome \|-> "done"'
+# spec/DocDeliver.tla: documents x schedules of the stream x read size of the reader
+VBASE = dict(Shapes=['empty', 'word', 'below'], Tails=['none', 'dots'], MaxDocs=2, Sizes=[4, 6], Kinds=list(dd.KINDS), MaxPeriod=2)
+VCONF = {
+    'deliver':   VBASE,
+    'deliver+':  dict(VBASE, Shapes=['empty', 'word', 'below', 'keep'], MaxDocs=3, Sizes=[3, 4, 7]),
+    'deliver3+': dict(VBASE, Shapes=['empty', 'ended'], Sizes=[4], MaxPeriod=3),
+}
+VTIERS = {'quick': ['deliver'], 'thorough': ['deliver+', 'deliver3+']}
+VKEEP = r'done = TRUE'
+# deliveries per run of a list (besides the string): schedule x form combinations, taken in turn from a seeded order
+NDELIVER = {'quick': 3, 'thorough': 2}
+LONG_EVERY = {'quick': 60, 'thorough': 150}        # one list in so many is also run as a long list (between filler documents, across the reader's refill point)
+READ_SIZE = {'python': 4096, 'libyaml': 16384}     # units the readers ask for per read (reader.py update_raw / libyaml raw buffer)
 EMIT_PAIRS = [('python', 'Dumper', 'python', 'Loader'), ('python', 'Dumper', 'libyaml', 'CLoader'),
               ('libyaml', 'CDumper', 'libyaml', 'CLoader'), ('libyaml', 'CDumper', 'python', 'Loader')]
 NODE_PAIRS = [('python', 'Dumper', 'python', 'Loader'), ('libyaml', 'CDumper', 'libyaml', 'CLoader'),
@@ -68,6 +87,10 @@ NODE_PAIRS = [('python', 'Dumper', 'python', 'Loader'), ('libyaml', 'CDumper', '
 VALUE_PAIRS = [('python', 'SafeDumper', 'python', 'SafeLoader'), ('libyaml', 'CSafeDumper', 'libyaml', 'CSafeLoader'),
                ('python', 'Dumper', 'libyaml', 'CSafeLoader'), ('libyaml', 'CDumper', 'python', 'SafeLoader')]
 QUICK_PAIRS = 2          # node / value pairings used in the quick tier
+# long lists: one pairing per back-end (the list is sized for that back-end's reader)
+LONG_PAIRS = {'python': [('python', 'Dumper', 'python', 'Loader')], 'libyaml': [('libyaml', 'CDumper', 'libyaml', 'CLoader')]}
+LONG_VALUE_PAIRS = {'python': [('python', 'SafeDumper', 'python', 'SafeLoader')],
+                    'libyaml': [('libyaml', 'CSafeDumper', 'libyaml', 'CSafeLoader')]}
 
 
 class LogStream:
@@ -83,7 +106,9 @@ class LogStream:
         pass
 
     def text(self):
-        return ''.join(self.chunks)
+        if len(self.chunks) > 1:
+            self.chunks = [''.join(self.chunks)]
+        return self.chunks[0] if self.chunks else ''
 
 
 # ------------------------------------------------------------------ stage drivers: events -> nodes -> values
@@ -131,7 +156,7 @@ def builders(yaml):
         while b.check_data():
             out.append(b.get_data())
         return out
-    return nodes_of, values_of
+    return nodes_of, values_of, dd.token_parser(yaml)
 
 
 def node_doc(yaml, node):
@@ -289,22 +314,49 @@ def observe(yaml, path, items, D, L, opts, is_end=None, mode='list'):
     except Exception as e:
         return 'exception', '%s: %s' % (type(e).__name__, str(e)[:200]), snaps, s.text(), []
     final = s.text()
+    outcome, err, dout = read_back(yaml, path, 'parse', final, L)
+    return outcome, err, snaps, final, dout
+
+
+def read_back(yaml, path, api, src, L, events_of=None):
+    """the documents of `src` (str, or a file-like object) as records: emit path through parse() - or scan() and a Parser fed with
+    its tokens -, serialize path through compose_all(), dump path through load_all()  -> (outcome, err, dout)"""
     try:
-        if path == 'emit':
-            dout = split_docs([ep.project(e) for e in yaml.parse(final, Loader=L)])
+        if path == 'emit' and api == 'scan':
+            dout = split_docs([ep.project(e) for e in events_of(list(yaml.scan(src, Loader=L)))])
+        elif path == 'emit':
+            dout = split_docs([ep.project(e) for e in yaml.parse(src, Loader=L)])
         elif path == 'serialize':
-            dout = [node_doc(yaml, n) for n in yaml.compose_all(final, Loader=L)]
+            dout = [node_doc(yaml, n) for n in yaml.compose_all(src, Loader=L)]
         else:
-            dout = [value_doc(x) for x in yaml.load_all(final, Loader=L)]
+            dout = [value_doc(x) for x in yaml.load_all(src, Loader=L)]
     except Exception as e:
-        return 'ParseError', '%s: %s' % (type(e).__name__, str(e)[:200]), snaps, final, []
-    return 'ok', '', snaps, final, dout
+        return 'ParseError', '%s: %s' % (type(e).__name__, str(e)[:200]), []
+    return 'ok', '', dout
 
 
-def run_list(yaml, tools, events, opts, rnd, out, sample, origin, paths=('emit', 'serialize', 'dump')):
-    """all observations for one list of documents given as an event stream (SS docs SE)"""
+def same_docs(din, dout):
+    """pre-filter only (which observations are trivially identical); the judgement is Trace_Docs.tla's"""
+    return len(dout) == len(din) and \
+        all(len(a) == len(b) and all(x.get(k) == y.get(k) for x, y in zip(a, b) for k in ('k', 'a', 't', 'v', 'ver', 'tags'))
+            for a, b in zip(din, dout))
+
+
+def next_deliveries(out, k):
+    """k (form, schedule) combinations, in turn from the seeded order of all combinations of the model's schedules"""
+    combos = out['combos']
+    if not combos:
+        return []
+    pick = [combos[(out['dk'] + i) % len(combos)] for i in range(k)]
+    out['dk'] += k
+    return pick
+
+
+def run_list(yaml, tools, events, opts, rnd, out, sample, origin, paths=('emit', 'serialize', 'dump'), long=False):
+    """all observations for one list of documents given as an event stream (SS docs SE); long = back-end name: a long list, run
+    through that back-end's pairing only"""
     E = yaml.events
-    nodes_of, values_of = tools
+    nodes_of, values_of, events_of = tools
     docs_in = split_docs([ep.project(e) for e in events])
     n = len(docs_in)
     sigs, cur, dsig, one = [], [], [], []   # what has been handed to the dumper up to the end of document j (complete attributes)
@@ -314,7 +366,7 @@ def run_list(yaml, tools, events, opts, rnd, out, sample, origin, paths=('emit',
         if isinstance(e, E.DocumentStartEvent):
             one = [cur[-1]]
         if isinstance(e, E.DocumentEndEvent):
-            sigs.append('|'.join(cur))
+            sigs.append('' if long else '|'.join(cur))        # (long lists join no prefix families)
             dsig.append('|'.join(one))
 
     def shared(objs):
@@ -329,7 +381,7 @@ def run_list(yaml, tools, events, opts, rnd, out, sample, origin, paths=('emit',
         len({bool(e.explicit) for e in de}) <= 1
     runs = []
     if 'emit' in paths:
-        for em, D, pa, L in EMIT_PAIRS:
+        for em, D, pa, L in (LONG_PAIRS[long] if long else EMIT_PAIRS):
             runs.append(('emit', em, D, pa, L, events, docs_in, opts, lambda it: isinstance(it, E.DocumentEndEvent)))
     if uniform and n and 'serialize' in paths:
         lopts = dict(opts, explicit_start=bool(ds[0].explicit), explicit_end=bool(de[0].explicit), version=ds[0].version,
@@ -344,9 +396,9 @@ def run_list(yaml, tools, events, opts, rnd, out, sample, origin, paths=('emit',
             return [[dict(d[0], otags=otags)] + d[1:] for d in docs] if otags else docs
         if nodes is not None and len(nodes) == n:
             din = with_otags([node_doc(yaml, x) for x in nodes])
-            for em, D, pa, L in NODE_PAIRS[:out.get('npairs', 4)]:
+            for em, D, pa, L in (LONG_PAIRS[long] if long else NODE_PAIRS[:out.get('npairs', 4)]):
                 runs.append(('serialize', em, D, pa, L, nodes, din, lopts, None))
-                if shared(nodes):
+                if shared(nodes) and not long:
                     runs.append(('serialize', em, D, pa, L, shared(nodes), din, lopts, None))
             try:
                 values = values_of(events) if 'dump' in paths else None
@@ -354,8 +406,10 @@ def run_list(yaml, tools, events, opts, rnd, out, sample, origin, paths=('emit',
                 values = None
             if values is not None and len(values) == n and all(plain_value(x, 0) for x in values):
                 din = with_otags([value_doc(x) for x in values])
-                for em, D, pa, L in VALUE_PAIRS[:out.get('npairs', 4)]:
+                for em, D, pa, L in (LONG_VALUE_PAIRS[long] if long else VALUE_PAIRS[:out.get('npairs', 4)]):
                     runs.append(('dump', em, D, pa, L, values, din, dict(lopts, sort_keys=False), None))
+                    if long:
+                        continue
                     if shared(values):
                         runs.append(('dump', em, D, pa, L, shared(values), din, dict(lopts, sort_keys=False), None))
                     modes = ['fresh', 'driven']
@@ -368,30 +422,83 @@ def run_list(yaml, tools, events, opts, rnd, out, sample, origin, paths=('emit',
         mode = run[9] if len(run) > 9 else 'list'
         outcome, err, snaps, final, dout = observe(yaml, path, items, getattr(yaml, D), getattr(yaml, L), o, is_end, mode)
         out['runs'] += 1
-        okish = outcome == 'ok' and len(dout) == len(din) and len(snaps) == len(din) and \
-            all(final.startswith(x) for x in snaps) and \
-            all(len(a) == len(b) and all(x.get(k) == y.get(k) for x, y in zip(a, b) for k in ('k', 'a', 't', 'v', 'ver', 'tags'))
-                for a, b in zip(din, dout))
+        prefixes = all(final.startswith(x) for x in snaps)
+        okish = outcome == 'ok' and len(snaps) == len(din) and prefixes and same_docs(din, dout)
+
+        def record(outcome, err, dout, **more):
+            t = {'fam': 0, 'outcome': outcome, 'din': din, 'dout': dout, 'final': ep.cps(final)}
+            if long and prefixes:
+                t['snapoff'] = [len(x) for x in snaps]
+            else:
+                t['snaps'] = [ep.cps(x) for x in snaps]
+            if 'unread' in more:
+                t['unread'] = more['unread']
+            out['traces'].append(t)
+            out['meta'].append(dict({'path': path, 'feed': mode, 'emitter': em, 'dumper': D, 'parser': pa, 'loader': L, 'opts': repr(o),
+                                     'final': final[:400], 'err': err, 'origin': origin, 'docs': n, 'delivery': 'str'}, **more))
         if okish:
             out['same'] += 1
         if not okish or rnd.random() < sample:
-            out['traces'].append({'fam': 0, 'outcome': outcome, 'din': din, 'dout': dout,
-                                  'snaps': [ep.cps(x) for x in snaps], 'final': ep.cps(final)})
-            out['meta'].append({'path': path, 'feed': mode, 'emitter': em, 'dumper': D, 'parser': pa, 'loader': L, 'opts': repr(o),
-                                'final': final[:400], 'err': err, 'origin': origin, 'docs': n})
+            record(outcome, err, dout)
+        # read side: the same text handed to the loader as a file-like object under schedules of spec/DocDeliver.tla
+        if okish and mode == 'list':
+            bounds = [len(x) for x in snaps]
+            picks = next_deliveries(out, out.get('ndeliver', 0))
+            if long and out['combos']:              # exact-size reads: what long texts add
+                picks = [('text', ('all',)), ('b8', ('all',))] + picks
+            for form, sched in picks:
+                api = 'scan' if path == 'emit' and out['delivered'] % 2 else 'parse'
+                stream = dd.open_stream(final, bounds, form, sched)
+                outcome2, err2, dout2 = read_back(yaml, path, api, stream, getattr(yaml, L), events_of)
+                out['runs'] += 1
+                out['delivered'] += 1
+                ok2 = outcome2 == 'ok' and same_docs(din, dout2)
+                if ok2:
+                    out['same'] += 1
+                if not ok2 or rnd.random() < sample / 2:
+                    record(outcome2, err2, dout2, unread=len(stream.data) - stream.pos, delivery=form, schedule='+'.join(sched),
+                           api=api if path == 'emit' else {'serialize': 'compose_all', 'dump': 'load_all'}[path],
+                           reads=[list(x) for x in stream.log[:12]])
         # families: the text after the first j documents, keyed by what was written so far
-        if outcome == 'ok':
+        if outcome == 'ok' and not long:
             for j, x in enumerate(snaps):
                 key = (path, D, repr(sorted(o.items())), sigs[j] if j < len(sigs) else '?')
                 out['fam'].setdefault(key, set()).add(x)
+
+
+def new_out(extra):
+    """accumulator of one worker; the (form, schedule) combinations in a seeded order"""
+    combos = [(f, tuple(sc)) for sc in extra.get('scheds', []) for f in dd.FORMS]
+    random.Random(extra['seed'] * 7 + 1).shuffle(combos)
+    return {'runs': 0, 'same': 0, 'delivered': 0, 'traces': [], 'meta': [], 'fam': {}, 'lists': 0, 'long_lists': 0, 'sizes': {},
+            'samples': [], 'ndrift': 0, 'drift': [], 'npairs': extra.get('npairs', 4), 'combos': combos, 'dk': 0,
+            'ndeliver': extra.get('ndeliver', 0)}
+
+
+def long_events(yaml, events, D, size, delta, opts):
+    """SS filler docs filler SE: the first filler document ends about `delta` units before offset `size` of the text the dumper D
+    writes, the second one is a full piece long.  Fillers are plain one-scalar documents with the start / end attributes of the
+    list's first document (so that serialize_all / dump_all can take the list with one option set)."""
+    E = yaml.events
+    ds = next(e for e in events if isinstance(e, E.DocumentStartEvent))
+    de = next(e for e in events if isinstance(e, E.DocumentEndEvent))
+
+    def filler(n):
+        text = ('filler ' * (n // 7 + 2))[:max(1, n)].rstrip()
+        return [E.DocumentStartEvent(explicit=ds.explicit, version=ds.version, tags=ds.tags),
+                E.ScalarEvent(None, None, (True, False), text), E.DocumentEndEvent(explicit=de.explicit)]
+    n = size - 300
+    for _ in range(3):      # measure where the filler document ends (+ what the stream end adds), correct its length; three rounds (folding adds units)
+        mark = len(yaml.emit([events[0]] + filler(n) + [events[-1]], Dumper=getattr(yaml, D), **opts))
+        n += size - delta - mark
+    return [events[0]] + filler(n) + events[1:-1] + filler(size + 64) + [events[-1]]
 
 
 def docs_work(states, extra):
     yaml = use_repo()
     tools = builders(yaml)
     rnd = random.Random(extra['seed'])
-    out = {'runs': 0, 'same': 0, 'traces': [], 'meta': [], 'fam': {}, 'lists': 0, 'sizes': {}, 'samples': [], 'ndrift': 0,
-           'drift': [], 'npairs': extra['npairs']}
+    out = new_out(extra)
     for st in states:
         m, hist = st['m'], st['hist']
         if not (m['outcome'] == 'done' and not m['events']) or not ep.attr_ok(hist):
@@ -403,6 +510,15 @@ def docs_work(states, extra):
         opts = ep.model_opts(m['opt'])
         before = len(out['traces'])
         run_list(yaml, tools, events, opts, rnd, out, extra['sample'], 'model')
+        # long list: the list between two filler documents sized so that its documents lie across the point at which the reader
+        # asks its stream for the next piece (4096 / 16384 units) and at least one more full piece follows: reads of exactly the
+        # size asked for occur, and document boundaries fall before, on and after the refill point (offset seeded per list)
+        tlen = len(m['w']['out'])
+        if extra.get('long_every') and nd >= 1 and zlib.crc32(repr(hist).encode()) % extra['long_every'] == 0:
+            for em, size in sorted(READ_SIZE.items()):
+                run_list(yaml, tools, long_events(yaml, events, LONG_PAIRS[em][0][1], size, zlib.crc32(repr(hist).encode()) // 7 % (tlen + 9),
+                                                  opts), opts, rnd, out, extra['sample'], 'model-long', long=em)
+            out['long_lists'] += 1
         # L comparison (drift only): final text and the snapshot offsets of the model against the Python emit path
         s = LogStream()
         try:
@@ -419,13 +535,72 @@ def docs_work(states, extra):
     return out
 
 
+# ------------------------------------------------------------------ spec -> code: every behaviour of DocDeliver.tla
+def deliver_work(states, extra):
+    """every complete behaviour of the model (documents, schedule, read size): its text is handed to loaders whose reader asks for
+    the model's number of units per read, as a text and as a byte stream that follow the schedule; the documents that come back
+    are judged against the documents the model wrote (Trace_Docs.tla); the reads are compared with the model's log (L, drift)"""
+    yaml = use_repo()
+    nodes_of, values_of, events_of = builders(yaml)
+    E = yaml.events
+    rnd = random.Random(extra['seed'])
+    out = {'runs': 0, 'same': 0, 'delivered': 0, 'traces': [], 'meta': [], 'fam': {}, 'lists': 0, 'behaviours': 0, 'scheds': set(),
+           'ndrift': 0, 'drift': [], 'samples': [], 'short': 0}
+    for st in states:
+        if not st['done']:
+            continue
+        out['behaviours'] += 1
+        sched, units, size = tuple(st['sched']), st['text'], st['size']
+        out['scheds'].add(sched)
+        text = ''.join(chr(u['c']) for u in units)
+        bounds = [i + 1 for i, u in enumerate(units) if u['d'] > 0 and (i + 1 == len(units) or units[i + 1]['d'] != u['d'])]
+        events = [E.StreamStartEvent()]
+        for val in st['expect']:
+            events += [E.DocumentStartEvent(explicit=True), E.ScalarEvent(None, None, (True, True), ep.text_of(val)),
+                       E.DocumentEndEvent(explicit=False)]
+        events.append(E.StreamEndEvent())
+        dins = {'emit': split_docs([ep.project(e) for e in events]), 'serialize': [node_doc(yaml, x) for x in nodes_of(list(events))],
+                'dump': [value_doc(x) for x in values_of(list(events))]}
+        if any(0 < g < a for a, g in st['log'][:-2]):
+            out['short'] += 1
+        for form in ('text', 'b8'):
+            for path, api, base in (('emit', 'parse', 'Loader'), ('emit', 'scan', 'Loader'), ('serialize', 'parse', 'Loader'),
+                                    ('dump', 'parse', 'SafeLoader')):
+                stream = dd.open_stream(text, bounds, form, sched)
+                L = dd.sized_loader(yaml, base, size)
+                outcome, err, dout = read_back(yaml, path, api, stream, L, events_of)
+                out['runs'] += 1
+                out['delivered'] += 1
+                din = dins[path]
+                ok = outcome == 'ok' and same_docs(din, dout)
+                if ok:
+                    out['same'] += 1
+                if not ok or rnd.random() < extra['sample']:
+                    out['traces'].append({'fam': 0, 'outcome': outcome, 'din': din, 'dout': dout, 'final': ep.cps(text),
+                                          'snapoff': bounds, 'unread': len(stream.data) - stream.pos})
+                    out['meta'].append({'path': path, 'feed': '-', 'emitter': 'model', 'dumper': '-', 'parser': 'python',
+                                        'loader': L.__name__, 'opts': 'reader asks for %d units per read' % size, 'final': text,
+                                        'err': err, 'origin': 'DocDeliver', 'docs': len(din), 'delivery': form,
+                                        'schedule': '+'.join(sched), 'api': api if path == 'emit' else {'serialize': 'compose_all', 'dump': 'load_all'}[path],
+                                        'reads': [list(x) for x in stream.log[:12]]})
+                reads = [list(x) for x in stream.log]
+                if reads != [list(x) for x in st['log']]:
+                    out['ndrift'] += 1
+                    if len(out['drift']) < 2:
+                        out['drift'].append({'text': text, 'schedule': list(sched), 'form': form, 'api': api, 'model': st['log'], 'real': reads})
+        if len(out['samples']) < 1 and len(bounds) >= 2 and len(sched) > 1:
+            out['samples'].append({'text': text, 'schedule': list(sched), 'read_size': size, 'reads': st['log']})
+    out['scheds'] = sorted(out['scheds'])
+    return out
+
+
 # ------------------------------------------------------------------ code -> spec: documents of the data files
 OPTS = [dict(canonical=c, indent=i, width=w, allow_unicode=u, line_break=l)
         for c in (False, True) for i in (2, 4) for w in (20, 80) for u in (False, True) for l in ('\n', '\r\n')]
 
 
 def corpus_work(args):
-    files, seed, nlists, sample = args
+    files, seed, nlists, sample, extra = args
     yaml = use_repo()
     tools = builders(yaml)
     E = yaml.events
@@ -448,7 +623,7 @@ def corpus_work(args):
                     if len(cur) <= 40:
                         pool.append((os.path.basename(f), cur))
                     cur = None
-    out = {'runs': 0, 'same': 0, 'traces': [], 'meta': [], 'fam': {}, 'lists': 0}
+    out = new_out(dict(extra, seed=seed))
     if not pool:
         return out
     for j in range(nlists):
@@ -501,11 +676,13 @@ def judge_all(v, outs, tag, acc):
     acc['judged'] += len(utraces)
     acc['families'] += nfam
     acc['lists'] += sum(o['lists'] for o in outs)
+    acc['delivered'] = acc.get('delivered', 0) + sum(o.get('delivered', 0) for o in outs)
+    acc['long_lists'] = acc.get('long_lists', 0) + sum(o.get('long_lists', 0) for o in outs)
     for m, t, (ok, why, at) in zip(meta, traces, verdicts):
         if not ok:
             clause, defect, kind = (why.split(':') + ['', ''])[:3]
             v.violation({'path': m['path'], 'feed': m.get('feed', '-'), 'emitter': m['emitter'], 'parser': m['parser'], 'clause': clause,
-                         'defect': defect or clause, 'emptyroot': kind or '-', 'dumper': m['dumper']},
+                         'defect': defect or clause, 'emptyroot': kind or '-', 'dumper': m['dumper'], 'delivery': m.get('delivery', '-')},
                         dict(m, outcome=t.get('outcome'), at_document=at))
 
 
@@ -525,7 +702,17 @@ def main(tier, replay=None):
     jobs += [('feed', dict(feed, tag='C12_feed', constants={'MaxDocs': 4 if tier == 'quick' else 5})),
              ('feed_nc1', dict(feed, tag='C12_feed_nc1', constants={'ResetCache': 'FALSE'})),
              ('feed_nc2', dict(feed, tag='C12_feed_nc2', constants={'ResetCache': 'FALSE', 'ResetKeeper': 'FALSE'}))]
-    results = ep.run_tlc_many(jobs, parallel=5 if tier == 'quick' else 3, workers=4 if tier == 'quick' else 5)
+    # spec/DocDeliver.tla: the text handed back to a loader by a stream under every schedule; negative control "a short piece is the
+    # end of input" must violate DocBoundariesKept
+    vnames = [n for n in VTIERS[tier] if not os.environ.get('C12_DEV') or n in os.environ['C12_DEV'].split(',')]
+    vconst = lambda c: {k: (x if isinstance(x, str) else tla(x)) for k, x in c.items()}
+    jobs += [(name, dict(module='DocDeliver', cfg='DocDeliver.cfg', dump=True, tag='C12_' + name, timeout=3000, coverage=False,
+                         constants=vconst(VCONF[name]))) for name in vnames]
+    jobs += [('deliver_nc', dict(module='DocDeliver', cfg='DocDeliver_nc.cfg', tag='C12_deliver_nc', timeout=600, coverage=False,
+                                 constants=vconst(VCONF['deliver'])))]
+    results = ep.run_tlc_many(jobs, parallel=(6 if tier == 'quick' else 3) if PROCS >= 16 else 1, workers=min(PROCS, 4 if tier == 'quick' else 5))
+    if 'DocBoundariesKept' not in results['deliver_nc'].violated:
+        raise SystemExit('machinery failure: negative control of DocDeliver.tla (end of input on a short piece) is not violated')
     r = results['feed']
     if r.violated or not r.ok:
         print(r.out[-2000:])
@@ -538,6 +725,35 @@ def main(tier, replay=None):
     acc['docfeed_states'] = r.distinct
     _t('tlc x%d' % len(jobs))
     all_outs = []
+    scheds, nbeh, nshort = set(), 0, 0
+    for name in vnames:
+        r = results[name]
+        if r.violated:
+            print(r.out[-3000:])
+            raise SystemExit('machinery failure: DocDeliver.tla violates %s in configuration %s' % (r.violated, name))
+        tlc.require_ok(r, 'DocDeliver/' + name)
+        acc['states'] += r.distinct
+        acc['trans'] += r.generated
+        acc['deliver_states'] = acc.get('deliver_states', 0) + r.distinct
+        n, outs, _ = ep.pmap_raw(deliver_work, r.dump, {'seed': SEED * 17 + len(name), 'sample': 0.01}, VKEEP, procs=PROCS)
+        os.remove(r.dump)
+        if n != r.distinct:
+            raise SystemExit('machinery failure: dump has %d states, TLC found %d' % (n, r.distinct))
+        for o in outs:
+            scheds.update(tuple(x) for x in o['scheds'])
+            acc['samples'] += o['samples'][:1]
+        nbeh += sum(o['behaviours'] for o in outs)
+        nshort += sum(o['short'] for o in outs)
+        nd = sum(o['ndrift'] for o in outs)
+        if nd:
+            v.note('spec-drift C12/%s: %d deliveries where the reads of the real reader differ from DocDeliver.tla, e.g. %s'
+                   % (name, nd, json.dumps([d for o in outs for d in o['drift']][:1])[:800]))
+        all_outs += outs
+        _t('replay ' + name)
+    if vnames and not (nbeh and nshort and scheds):
+        raise SystemExit('machinery failure: DocDeliver.tla produced no behaviour with a short read')
+    acc['deliver_behaviours'], acc['deliver_schedules'] = nbeh, len(scheds)
+    dextra = {'scheds': sorted(scheds), 'ndeliver': NDELIVER[tier]}
     for name in names:
         r = results[name]
         if r.violated:
@@ -546,8 +762,8 @@ def main(tier, replay=None):
         tlc.require_ok(r, 'MC_Emitter/' + name)
         acc['states'] += r.distinct
         acc['trans'] += r.generated
-        n, outs, _ = ep.pmap_raw(docs_work, r.dump, {'seed': SEED * 31 + len(name), 'sample': 0.01,
-                                                     'npairs': QUICK_PAIRS if tier == 'quick' else 4}, KEEP)
+        n, outs, _ = ep.pmap_raw(docs_work, r.dump, dict(dextra, seed=SEED * 31 + len(name), sample=0.01, long_every=LONG_EVERY[tier],
+                                                         npairs=QUICK_PAIRS if tier == 'quick' else 4), KEEP, procs=PROCS)
         os.remove(r.dump)
         if n != r.distinct:
             raise SystemExit('machinery failure: dump has %d states, TLC found %d' % (n, r.distinct))
@@ -566,8 +782,8 @@ def main(tier, replay=None):
                        glob.glob(os.path.join(REPO, 'tests/legacy_tests/data/*.canonical')))
         files = [f for f in files if os.path.getsize(f) < 20000]
         nl = 6 if tier == 'quick' else 60
-        with mp.Pool(16) as pool:
-            outs = pool.map(corpus_work, [(files[i::32], SEED * 1009 + i, nl, 0.01) for i in range(32)])
+        with mp.Pool(PROCS) as pool:
+            outs = pool.map(corpus_work, [(files[i::32], SEED * 1009 + i, nl, 0.01, dextra) for i in range(32)])
         acc['corpus_lists'] = sum(o['lists'] for o in outs)
         all_outs += outs
         _t('corpus runs')
@@ -575,14 +791,19 @@ def main(tier, replay=None):
     _t('judge')
     v.cov = {'states': acc['states'], 'transitions': acc['trans'], 'traces_validated_against_impl': acc['runs'],
              'runs_judged_by_tlc': acc['judged'], 'document_lists': acc['lists'], 'lists_by_number_of_documents': acc['sizes'],
-             'prefix_families': acc['families'], 'docfeed_states': acc.get('docfeed_states'), 'corpus_lists': acc.get('corpus_lists', 0), 'exhaustive': True,
+             'prefix_families': acc['families'], 'docfeed_states': acc.get('docfeed_states'),
+             'deliver_states': acc.get('deliver_states', 0), 'deliver_behaviours_replayed': acc.get('deliver_behaviours', 0),
+             'deliver_schedules': acc.get('deliver_schedules', 0), 'reads_back_from_streams': acc.get('delivered', 0),
+             'long_lists': acc.get('long_lists', 0), 'corpus_lists': acc.get('corpus_lists', 0), 'exhaustive': True,
              'L_variant_repairs_detected_in_tree': fix, 'samples': acc['samples'][:5],
              'distinct_nontrivial': sum(c for k, c in acc['sizes'].items() if int(k) >= 2),
              'rule': 'every list of 0..k documents of the model configurations is written through emit / serialize_all / dump_all '
                      'with both back-ends and read back with both loaders; non-trivial = two or more documents',
-             'configs': {n: DCONF[n] for n in DTIERS[tier]}}
+             'configs': dict({n: DCONF[n] for n in DTIERS[tier]}, **{n: VCONF[n] for n in VTIERS[tier]})}
     v.assumptions = ['serialize_all / dump_all paths are run for lists whose documents share their start/end attributes '
                      '(those calls take them as one option set)',
                      'node and value paths compare the canonical traversal (tags as resolved, identity by alias positions)',
-                     'texts contain no lone surrogates']
+                     'texts contain no lone surrogates',
+                     'a stream returns the empty piece only at its end (file protocol); streams deliver str, UTF-8 or UTF-16-LE (with '
+                     'byte order mark) bytes; stream read-backs are made for runs whose text reads back correctly from a string']
     return v.finish()
